@@ -15,12 +15,12 @@ ASSUMPTIONS = [
     "known findings excluded by their classifiers: C08-K1 (parameter values with backslash / %XX codes), C05-K1 (non-TEXT values with backslash-escapes are decoded by parts())",
 ]
 CONDITIONS = (
-    shards("roundtrip", "c05.py", "h_roundtrip", {"kind": [0, 1, 2, 3], "p0": list(range(16))}, timeout=300, thorough_timeout=3000,
+    shards("roundtrip", "c05.py", "h_roundtrip", {"kind": [0, 1], "p0": list(range(16))}, timeout=300, thorough_timeout=3000,
            what="from_parts -> parts: refused (raw LF) / rejected (ValueError) / exactly the same name, one parameter, value text decoding to the value",
-           bound="parameter value <= 1 char (pinned per shard), value <= 2 chars (thorough 3), 14-char alphabet")
-    + shards("inject", "c05.py", "h_inject", {"kind": [2, 3], "pq": [0, 1, 2, 3, 4]}, timeout=300, thorough_timeout=3000, tiers=("thorough",),
-             what="component read back has exactly VCALENDAR > VEVENT > {UID, X-NAME[X-P]} or the X-NAME line alone is dropped",
-             bound="value <= 4 chars over {\" ; : = , a backslash}; parameter value pinned per shard")
+           bound="TEXT and URI values; parameter value <= 1 char (pinned per shard), value <= 2 chars (thorough 3), 16-char alphabet")
+    + shards("roundtrip", "c05.py", "h_roundtrip", {"kind": [2, 3], "p0": list(range(16))}, timeout=300, tiers=("quick",),
+           what="from_parts -> parts: refused (raw LF) / rejected (ValueError) / exactly the same name, one parameter, value text decoding to the value",
+           bound="CAL-ADDRESS and inline values; parameter value <= 1 char (pinned per shard), value <= 2 chars, 16-char alphabet")
     + shards("inject", "c05.py", "h_inject", {"kind": [0, 1], "pq": [0, 1, 2, 3, 4]}, timeout=300, thorough_timeout=3000,
              what="component read back has exactly VCALENDAR > VEVENT > {UID, X-NAME[X-P]} or the X-NAME line alone is dropped",
              bound="value <= 3 (thorough 4) chars over {\" ; : = , a backslash}; parameter value pinned per shard")
